@@ -86,9 +86,9 @@ Theorem C07_validated_graph_degrees_true :
          (sem2 : infix_op -> Z -> Z -> Z) (sem1 : prefix_op -> Z -> Z) (call_sem : ident -> list Z -> Z)
          (name_code : ident -> Z),
   (forall op, op_den p op (sem2 op)) -> (forall op, prefix_den p op (sem1 op)) ->
-  forall c, djust_cfg c = true ->
+  forall c idom, djust_cfg c idom = true ->
   forall s0 s e F r,
-  finit_ok V line p c s0 -> freachable V p sem2 sem1 call_sem name_code c s0 s ->
+  finit_ok V line p c s0 -> freachable V p sem2 sem1 call_sem name_code c idom s0 s ->
   djust_expr c e = true -> den V p sem2 sem1 call_sem name_code s e = Some F -> expr_deg e = Some r ->
   forall i, SemDeg V line p (snd r) (F i).
 Proof. exact justified_degrees_true. Qed.
@@ -100,8 +100,8 @@ Theorem C07_step_preserves :
          (sem2 : infix_op -> Z -> Z -> Z) (sem1 : prefix_op -> Z -> Z) (call_sem : ident -> list Z -> Z)
          (name_code : ident -> Z),
   (forall op, op_den p op (sem2 op)) -> (forall op, prefix_den p op (sem1 op)) ->
-  forall c, djust_cfg c = true ->
-  forall s s', fstore_ok V line p c s -> fstep V p sem2 sem1 call_sem name_code c s s' -> fstore_ok V line p c s'.
+  forall c idom, djust_cfg c idom = true ->
+  forall s s', fstore_ok V line p c s -> fstep V p sem2 sem1 call_sem name_code c idom s s' -> fstore_ok V line p c s'.
 Proof. exact fstep_preserves. Qed.
 Print Assumptions C07_step_preserves.
 
@@ -109,7 +109,7 @@ Print Assumptions C07_step_preserves.
    constant array index) among functions within a bound stays within it *)
 Theorem C07_selection_sound :
   forall (V : Type) (line : V -> V -> Z -> V) (p : Z) (X : Type) d (K : V -> X) (H : X -> V -> Z),
-  (forall r r', K r = K r') -> (forall x, SemDeg V line p d (H x)) -> SemDeg V line p d (fun rho => H (K rho) rho).
+  (forall r r', K r = K r') -> (forall r, SemDeg V line p d (H (K r))) -> SemDeg V line p d (fun rho => H (K rho) rho).
 Proof. exact select_general. Qed.
 Print Assumptions C07_selection_sound.
 
@@ -129,9 +129,9 @@ Definition exa_graph (idx : expr) (claim : option drange) : cfg :=
        b_stmts := [ SSubst exa_m exa_t0 OpVar (EArray [ENum 1 (exa_k exa_cc); ENum 2 (exa_k exa_cc)] (exa_k exa_cc)) None (Some TLocal);
                     SSubst exa_m exa_b OpSig (EAccess exa_t0 [AIdx idx] (exa_k claim)) None (Some TSigOut) ] |} ] |}.
 Example C07_array_index_matters :
-  djust_cfg (exa_graph (ENum 0 (exa_k exa_cc)) exa_cc) = true /\
-  djust_cfg (exa_graph (EVar exa_a (exa_k (Some (DLin, DLin)))) exa_cc) = false /\
-  djust_cfg (exa_graph (EVar exa_a (exa_k (Some (DLin, DLin)))) (Some (DConst, DNonQuad))) = true.
+  djust_cfg (exa_graph (ENum 0 (exa_k exa_cc)) exa_cc) [None] = true /\
+  djust_cfg (exa_graph (EVar exa_a (exa_k (Some (DLin, DLin)))) exa_cc) [None] = false /\
+  djust_cfg (exa_graph (EVar exa_a (exa_k (Some (DLin, DLin)))) (Some (DConst, DNonQuad))) [None] = true.
 Proof. vm_compute. repeat split; reflexivity. Qed.
 
 (* non-vacuity: over valuations Z with line rho delta t = rho + t*delta, the
@@ -146,8 +146,30 @@ Proof.
   - intros H. specialize (H 0 1 0). vm_compute in H. discriminate.
 Qed.
 
-(* Not reached by proof (reported as open statements in the evidence): joins
-   under signal-dependent control (outside the step relation: known finding
-   C07-ctl-merge), and a universal theorem that Model.Propagate's degree passes
-   always produce a graph accepted by djust_cfg (established per explored
-   definition by running the validator on the implementation's output). *)
+(* non-vacuity for control dependence (the repaired defect D18): x.3 = phi(x.1, x.2)
+   with x.1 = 1, x.2 = 2 at the join of `if (a == 1)`: the merged value may be claimed
+   constant only when the deciding condition is; with the condition on the signal a
+   the claim must have upper end non-quadratic *)
+Definition exc_x (n : N) : vname := {| vn_name := [120%N]; vn_suffix := None; vn_version := Some n |}.
+Definition exc_cond (d : option drange) : expr :=
+  EInfix IEq (EVar exa_a (exa_k (Some (DLin, DLin)))) (ENum 1 (exa_k exa_cc)) (exa_k d).
+Definition exc_graph (cond_deg phi_claim : option drange) : cfg :=
+  {| c_kind := KTemplate; c_params := [];
+     c_decls := [(exc_x 1, TLocal); (exc_x 2, TLocal); (exc_x 3, TLocal); (exa_a, TSigIn); (exa_b, TSigOut)];
+     c_blocks :=
+       [ {| b_index := 0%N; b_depth := 0%N; b_preds := []; b_succs := [1%N; 2%N];
+            b_stmts := [ SIf exa_m (exc_cond cond_deg) 1%N (Some 2%N) ] |};
+         {| b_index := 1%N; b_depth := 0%N; b_preds := [0%N]; b_succs := [3%N];
+            b_stmts := [ SSubst exa_m (exc_x 1) OpVar (ENum 1 (exa_k exa_cc)) None (Some TLocal) ] |};
+         {| b_index := 2%N; b_depth := 0%N; b_preds := [0%N]; b_succs := [3%N];
+            b_stmts := [ SSubst exa_m (exc_x 2) OpVar (ENum 2 (exa_k exa_cc)) None (Some TLocal) ] |};
+         {| b_index := 3%N; b_depth := 0%N; b_preds := [1%N; 2%N]; b_succs := [];
+            b_stmts := [ SSubst exa_m (exc_x 3) OpVar (EPhi [exc_x 1; exc_x 2] (exa_k phi_claim)) None (Some TLocal);
+                         SSubst exa_m exa_b OpSig (EVar (exc_x 3) (exa_k phi_claim)) None (Some TSigOut) ] |} ] |}.
+Example C07_control_dependence_matters :
+  let idom := [None; Some 0%N; Some 0%N; Some 0%N] in
+  djust_cfg (exc_graph (Some (DNonQuad, DNonQuad)) exa_cc) idom = false /\
+  djust_cfg (exc_graph (Some (DNonQuad, DNonQuad)) (Some (DConst, DNonQuad))) idom = true /\
+  djust_cfg (exc_graph None None) idom = true /\
+  djust_cfg (exc_graph None exa_cc) idom = false.
+Proof. vm_compute. repeat split; reflexivity. Qed.
